@@ -13,12 +13,46 @@ open LyModel LyModel.Tree
 
 /-! ## events of a deletion -/
 
-/-- `lyd_validate_autodel_node_del(…, np_cont_diff, …)`: a non-presence container is recorded through its children unless
-`np_cont_diff` -/
-def delEvents (S : Schema) (cx : Cx) (npContDiff : Bool) (n : DNode) : List Ev :=
+/-- metadata `lyd_val_diff_add` computes for a user-ordered node from the instance in front of it: key predicate / value of the
+preceding instance, or the position.  `sibs` is the sibling list at that moment, `idx` the place of `n` in it. -/
+def userordAnchor (S : Schema) (sibs : List DNode) (idx : Nat) (n : DNode) : Option (String × Bytes) :=
+  if !S.isUserOrd n.sid then none
+  else
+    let before := sibs.take idx
+    if S.isDupInst n.sid then
+      let pos := posOf before n.sid
+      some ("position", if pos > 1 then bs (toString (pos - 1)) else [])
+    else
+      let prev := match before.getLast? with
+        | some p => if p.sid == n.sid then some p else none
+        | none => none
+      if S.isKind n.sid .list then
+        some ("key", match prev with
+          | some p => (keysOf S p.kids).flatMap fun k => [91] ++ bs (S.name k.sid) ++ [61] ++ quoted k.val ++ [93]
+          | none => [])
+      else some ("value", match prev with | some p => p.val | none => [])
+
+/-- the anchor of a delete: none in the defective variant (F63) -/
+def delAnchor (X : SchemaX) (sibs : List DNode) (idx : Nat) (n : DNode) : Option (String × Bytes) :=
+  if X.q.valDiffNoDeleteAnchor then none else userordAnchor X.base sibs idx n
+
+/-- `lyd_validate_autodel_node_del(…, np_cont_diff, …)` for the node `n` whose preceding siblings are `before`: a non-presence
+container is recorded through its children (all still linked) unless `np_cont_diff` -/
+def delEvents (X : SchemaX) (cx : Cx) (npContDiff : Bool) (before : List DNode) (n : DNode) : List Ev :=
+  let S := X.base
   if !npContDiff && isNpContD S n then
-    n.kids.map fun k => { op := .delete, anc := cx.anc ++ [shallow S n], node := k }
-  else [{ op := .delete, anc := cx.anc, node := n }]
+    n.kids.zipIdx.map fun (k, i) => { op := .delete, anc := cx.anc ++ [shallow S n], node := k, anchor := delAnchor X n.kids i k }
+  else [{ op := .delete, anc := cx.anc, node := n, anchor := delAnchor X (before ++ [n]) before.length n }]
+
+/-- delete every sibling satisfying `victim`, one after the other in sibling order (each deletion sees the earlier ones gone):
+the remaining siblings and the events -/
+def delSeq (X : SchemaX) (cx : Cx) (npContDiff : Bool) (victim : DNode → Bool) : (kept rest : List DNode) → List DNode × List Ev
+  | kept, [] => (kept, [])
+  | kept, n :: ns =>
+    if victim n then
+      let r := delSeq X cx npContDiff victim kept ns
+      (r.1, delEvents X cx npContDiff kept n ++ r.2)
+    else delSeq X cx npContDiff victim (kept ++ [n]) ns
 
 /-! ## `lyd_validate_cases` -/
 
@@ -37,39 +71,40 @@ def scanCases (sibs : List DNode) : List STree → (old new : Option STree) → 
     | _ => scanCases sibs rest old new
 
 /-- `lyd_validate_cases(first, mod, choic, diff)` -/
-def casesStep (S : Schema) (cx : Cx) (choice : STree) (sibs : List DNode) : List DNode × Out :=
+def casesStep (X : SchemaX) (cx : Cx) (choice : STree) (sibs : List DNode) : List DNode × Out :=
   match scanCases sibs choice.kids none none with
-  | none => (sibs, Out.err .dupCase (schemaLoc S choice.sid))
+  | none => (sibs, Out.err .dupCase (schemaLoc X.base choice.sid))
   | some (some old, some _) =>
-    -- auto-delete the old case: every data instance of it, in `lys_getnext_data` order
-    let ds := old.dataSids
-    let gone := ds.flatMap (instsOf sibs)
-    (sibs.filter (fun x => !inSids ds x), Out.ofEvs (gone.map fun n => { op := .delete, anc := cx.anc, node := n }))
+    -- auto-delete the old case: every data instance of it (each recorded as a deletion of the node itself)
+    let r := delSeq X cx true (inSids old.dataSids) [] sibs
+    (r.1, Out.ofEvs r.2)
   | some _ => (sibs, {})
 
 /-! ## `lyd_validate_choice_r` -/
 mutual
 /-- one schema child of the level: only a choice does something -/
-def choiceRNode (S : Schema) (cx : Cx) : STree → List DNode → List DNode × Out
+def choiceRNode (X : SchemaX) (cx : Cx) : STree → List DNode → List DNode × Out
   | .mk s i ks, sibs =>
     if i.kind == .choice then
       if sibs.isEmpty then (sibs, {}) else
-      let r1 := casesStep S cx (.mk s i ks) sibs
-      let r2 := choiceRCases S cx ks r1.1
+      let r1 := casesStep X cx (.mk s i ks) sibs
+      let r2 := choiceRCases X cx ks r1.1
       (r2.1, r1.2 ++ r2.2)
     else (sibs, {})
 /-- the choices directly inside the cases of a choice (`lyd_val_getnext_get(choice)` flattens the cases) -/
-def choiceRCases (S : Schema) (cx : Cx) : List STree → List DNode → List DNode × Out
+def choiceRCases (X : SchemaX) (cx : Cx) : List STree → List DNode → List DNode × Out
   | [], sibs => (sibs, {})
-  | .mk _ _ ks :: rest, sibs =>
-    let r1 := choiceRL S cx ks sibs
-    let r2 := choiceRCases S cx rest r1.1
+  | c :: rest, sibs =>
+    let r1 := choiceRCase X cx c sibs
+    let r2 := choiceRCases X cx rest r1.1
     (r2.1, r1.2 ++ r2.2)
-def choiceRL (S : Schema) (cx : Cx) : List STree → List DNode → List DNode × Out
+def choiceRCase (X : SchemaX) (cx : Cx) : STree → List DNode → List DNode × Out
+  | .mk _ _ ks, sibs => choiceRL X cx ks sibs
+def choiceRL (X : SchemaX) (cx : Cx) : List STree → List DNode → List DNode × Out
   | [], sibs => (sibs, {})
   | k :: ks, sibs =>
-    let r1 := choiceRNode S cx k sibs
-    let r2 := choiceRL S cx ks r1.1
+    let r1 := choiceRNode X cx k sibs
+    let r2 := choiceRL X cx ks r1.1
     (r2.1, r1.2 ++ r2.2)
 end
 
@@ -105,13 +140,24 @@ def caseOf (X : SchemaX) (sid : Nat) : Option (STree × STree) :=
       | _, _ => none
     else none
 
-/-- `lyd_validate_autodel_case_dflt`: a default node of a non-default case none of whose data is explicit -/
+/-- the cases around a node, innermost first, each with its choice (through nested choices) -/
+def caseChain (X : SchemaX) (sid : Nat) : List (STree × STree) :=
+  let rec go (fuel : Nat) (sid : Nat) : List (STree × STree) :=
+    match fuel with
+    | 0 => []
+    | fuel + 1 =>
+      match caseOf X sid with
+      | some (cs, ch) => (cs, ch) :: go fuel ch.sid
+      | none => []
+  go (X.base.nodes.length + 1) sid
+
+/-- `lyd_validate_autodel_case_dflt`: a default node of a non-default case none of whose data is explicit.  The repaired code
+(F66) asks this of every case around the node, the defective one of the innermost case only. -/
 def caseDfltVictim (X : SchemaX) (all : List DNode) (node : DNode) : Bool :=
-  match caseOf X node.sid with
-  | none => false
-  | some (cs, ch) =>
-    if ch.info.dfltCase == some cs.info.name then false
-    else !(all.any fun x => inSids cs.dataSids x && !x.flags.dflt)
+  let gone := fun (p : STree × STree) =>
+    p.2.info.dfltCase != some p.1.info.name && !(all.any fun x => inSids p.1.dataSids x && !x.flags.dflt)
+  let chain := caseChain X node.sid
+  if X.q.autodelDirectCase then (chain.take 1).any gone else chain.any gone
 
 /-- first element satisfying `p` removed: (list without it, the element) -/
 def removeFirst (p : DNode → Bool) : List DNode → List DNode × Option DNode
@@ -136,25 +182,28 @@ def newLoop (X : SchemaX) (o : VOpts) (cx : Cx) : (fuel : Nat) → (done rest : 
       let isLL := S.isKind sid .leaflist
       let victimAll := fun (x : DNode) => x.sid == sid && x.flags.dflt
       let victimOld := fun (x : DNode) => x.sid == sid && x.flags.dflt && !x.flags.new
-      -- (done', node deleted?, tl', deleted nodes in sibling order)
-      let r : List DNode × Bool × List DNode × List DNode :=
+      -- (done', node deleted?, tl', events)
+      let r : List DNode × Bool × List DNode × List Ev :=
         if !doAuto then (done, false, tl, [])
         else if found then
-          (done.filter (fun x => !victimAll x), victimAll node, tl.filter (fun x => !victimAll x),
-            done.filter victimAll ++ (if victimAll node then [node] else []) ++ tl.filter victimAll)
+          -- every default instance goes, one after the other in sibling order
+          let r1 := delSeq X cx false victimAll [] done
+          let r2 := delSeq X cx false victimAll r1.1 [node]
+          let r3 := delSeq X cx false victimAll r2.1 tl
+          (r1.1, victimAll node, r3.1.drop r2.1.length, r1.2 ++ r2.2 ++ r3.2)
         else if isLL then (done, false, tl, [])
         else
           -- a single old default instance (the node itself is new)
           match removeFirst victimOld done with
-          | (d', some v) => (d', false, tl, [v])
+          | (d', some v) => (d', false, tl, delEvents X cx false (done.takeWhile (fun x => !victimOld x)) v)
           | (_, none) =>
             match removeFirst victimOld tl with
-            | (t', some v) => (done, false, t', [v])
+            | (t', some v) => (done, false, t', delEvents X cx false (done ++ node :: tl.takeWhile (fun x => !victimOld x)) v)
             | (_, none) => (done, false, tl, [])
       let done' := r.1
       let nodeGone := r.2.1
       let tl' := r.2.2.1
-      let o1 := Out.ofEvs (r.2.2.2.flatMap (delEvents S cx false))
+      let o1 := Out.ofEvs r.2.2.2
       if nodeGone then
         let rr := newLoop X o cx fuel done' tl' last'
         (rr.1, o1 ++ rr.2)
@@ -169,14 +218,14 @@ def newLoop (X : SchemaX) (o : VOpts) (cx : Cx) : (fuel : Nat) → (done rest : 
         -- leftover default nodes of a case that no longer exists
         if node1.flags.dflt && caseDfltVictim X (done' ++ node1 :: tl') node1 then
           let rr := newLoop X o cx fuel done' tl' last'
-          (rr.1, o1 ++ o2 ++ Out.ofEvs (delEvents S cx false node1) ++ rr.2)
+          (rr.1, o1 ++ o2 ++ Out.ofEvs (delEvents X cx false done' node1) ++ rr.2)
         else
           let rr := newLoop X o cx fuel (done' ++ [node1]) tl' last'
           (rr.1, o1 ++ o2 ++ rr.2)
 
 /-- `lyd_validate_new(first, sparent, mod, …)` for the children `sibs` of `cx.parent` -/
 def validateNew (X : SchemaX) (o : VOpts) (cx : Cx) (sibs : List DNode) : List DNode × Out :=
-  let r1 := choiceRL X.base cx (levelChoices (X.kidsOf cx.parent)) sibs
+  let r1 := choiceRL X cx (X.kidsOf cx.parent) sibs
   let r2 := newLoop X o cx.keysOld (r1.1.length + 1) [] r1.1 none
   (r2.1, r1.2 ++ r2.2)
 
